@@ -78,3 +78,15 @@ Example C14_example_plumbing :
   construct_reads (run_frontend h reg [("@a.x", "5"); ("@a.x", "7")]) reg "@a.x" = Some "7"
   /\ construct_reads (run_frontend h reg [("@a.x", "5")]) reg "@b.y" = Some "true".
 Proof. vm_compute. auto. Qed.
+
+(* Sizes for a target platform: the platform-parametric model instantiated at amd64 is the amd64 model used
+   above; the correspondence evaluates it at the foreign platform against what every front-end quotes when
+   GOARCH is set (harness: crossArch). *)
+Theorem C14_gsize_amd64 : forall t, gsize amd64 t = gc_sizeof t /\ galign amd64 t = gc_alignof t.
+Proof. exact gsize_amd64. Qed.
+Print Assumptions C14_gsize_amd64.
+Example C14_gsize_386_examples :
+  gsize i386 (TArray 12 TInt) = 48 /\ gsize amd64 (TArray 12 TInt) = 96
+  /\ gsize i386 (TStruct [TInt64; TInt32]) = 12 /\ gsize amd64 (TStruct [TInt64; TInt32]) = 16
+  /\ gsize i386 (TStruct [TBool; TFloat64; TInt]) = 16 /\ gsize amd64 (TStruct [TBool; TFloat64; TInt]) = 24.
+Proof. vm_compute. repeat split. Qed.
